@@ -177,6 +177,15 @@ off64_t _GD_GetEOF(DIRFILE *restrict D, gd_entry_t *restrict E,
         break;
       }
 
+      /* If the field is open for writing, close it first to flush the data
+       * (as gd_nframes does), or the size found is the one before the writes
+       */
+      if (E->e->u.raw.file[0].mode & GD_FILE_WRITE) {
+        _GD_FiniRawIO(D, E, E->fragment_index, GD_FINIRAW_KEEP);
+        if (D->error)
+          break;
+      }
+
       ns = (*_GD_ef[E->e->u.raw.file[0].subenc].size)(
           D->fragment[E->fragment_index].dirfd, E->e->u.raw.file,
           E->EN(raw,data_type), _GD_FileSwapBytes(D, E));
